@@ -3,6 +3,7 @@ package main
 import (
 	"fmt"
 	"go/ast"
+	"go/token"
 	"go/types"
 	"sort"
 	"strings"
@@ -454,6 +455,8 @@ func checkDiscipline(w *World, r *Report, la *LockAnalysis, filter func(sharedSt
 				r.OK("R09.1", construct, a.Pos(), true, "%s held (%s)", path, need)
 			} else if isFreshAccess(a) {
 				r.OK("R09.1", construct, a.Pos(), true, "object still private to its allocating function")
+			} else if a.Kind == "addr" && addrUnderParamLock(w, la, a, w.Field(w.pkgByShort(row.pkg), row.strct, row.mu)) {
+				r.OK("R09.1", construct, a.Pos(), true, "the address is handed, together with the address of %s, to a private function that touches the field only while holding that lock", path)
 			} else {
 				r.Fail("R09.1", construct, a.Pos(), "%s of %s.%s needs %s held for %s but the locks certainly held here are %v", a.Kind, ss.name, a.Field.Name(), path, map[string]string{"R": "reading", "W": "writing"}[need], lockFactsOf(held))
 			}
@@ -581,4 +584,80 @@ func addrOnlyForAtomic(w *World, a *Access) bool {
 		}
 	}
 	return ok
+}
+
+// addrUnderParamLock: &x.f is passed to a private function together with &x.mu
+// (f's guard), and the function dereferences the field pointer only at points
+// where it holds the mutex it was given (takeDisposables(&s.mu, &s.list)).
+func addrUnderParamLock(w *World, la *LockAnalysis, a *Access, guard *types.Var) bool {
+	if a.Node == nil || a.Unit == nil || guard == nil {
+		return false
+	}
+	info := a.Unit.pkg.TypesInfo
+	for _, c := range callsIn(a.Node, false) {
+		fi, mi := -1, -1
+		base := ""
+		for i, arg := range c.Args {
+			ue, isU := unparen(arg).(*ast.UnaryExpr)
+			if !isU || ue.Op != token.AND {
+				continue
+			}
+			switch plainFieldOf(info, ue.X) {
+			case a.Field:
+				fi, base = i, exprStr(selBase(ue.X))
+			}
+		}
+		if fi < 0 {
+			continue
+		}
+		for i, arg := range c.Args {
+			if ue, isU := unparen(arg).(*ast.UnaryExpr); isU && ue.Op == token.AND && plainFieldOf(info, ue.X) == guard && exprStr(selBase(ue.X)) == base {
+				mi = i
+			}
+		}
+		cal := callee(info, c)
+		if mi < 0 || cal == nil || cal.Exported() || w.Decls[cal] == nil {
+			return false
+		}
+		t := w.Decls[cal]
+		tinfo := t.Pkg.TypesInfo
+		var params []*ast.Ident
+		for _, f := range t.Decl.Type.Params.List {
+			params = append(params, f.Names...)
+		}
+		if fi >= len(params) || mi >= len(params) {
+			return false
+		}
+		pf, pm := tinfo.Defs[params[fi]], tinfo.Defs[params[mi]]
+		uses, good := 0, true
+		var stack []ast.Node
+		ast.Inspect(t.Decl.Body, func(x ast.Node) bool {
+			if x == nil {
+				stack = stack[:len(stack)-1]
+				return true
+			}
+			stack = append(stack, x)
+			id, isId := x.(*ast.Ident)
+			if !isId || tinfo.Uses[id] != pf {
+				return true
+			}
+			uses++
+			// only as *pf
+			if len(stack) < 2 {
+				good = false
+				return true
+			}
+			if _, isStar := stack[len(stack)-2].(*ast.StarExpr); !isStar {
+				good = false
+				return true
+			}
+			_, node := la.NodeAt(id.Pos())
+			if node == nil || !holds(la.HeldAt(node), pm.Name(), "W") {
+				good = false
+			}
+			return true
+		})
+		return good && uses > 0
+	}
+	return false
 }
